@@ -4,7 +4,7 @@
 # and let TLC check IndInv and Props as invariants of the reachable states of the same module for N = 3.
 # usage: apalache_linker.sh [scratch dir]     exit 0 = all four steps passed, 1 = a step failed, 2 = tool problem
 out=${1:-/tmp/apalache_linker.$$}; mkdir -p "$out"; here=$(cd "$(dirname "$0")/.." && pwd)
-cp "$here"/spec/LinkerInd.tla "$here"/spec/MC_LinkerInd.tla "$here"/spec/MC_LinkerIndTLC.tla "$out"/ || exit 2
+cp "$here"/spec/LinkerInd.tla "$here"/spec/apalache/MC_LinkerInd.tla "$here"/spec/MC_LinkerIndTLC.tla "$out"/ || exit 2
 cd "$out" || exit 2
 # LINKER_N: number of modules for the symbolic steps (default 6, as written in the module; the six unrolled closure rounds are exact for any N <= 6)
 n=${LINKER_N:-6}; sed -i "s/^N == 6\$/N == $n/" LinkerInd.tla; grep -q "^N == $n\$" LinkerInd.tla || exit 2
